@@ -135,4 +135,611 @@ theorem range_decode_member {env : Env} {c : Consts} {h : HP} {r : Range} (hok :
       · simp only [Domain.member, decide_eq_true_eq]; exact ⟨h1, h2⟩
     · cases hcore
 
+theorem single_ok {e : Except Err ℚ} {xs : List ℚ} (h : single e = .ok xs) : ∃ x, e = .ok x ∧ xs = [x] := by
+  unfold single at h
+  split at h
+  · rename_i x; injection h with h; exact ⟨x, rfl, h.symm⟩
+  · cases h
+
+theorem single_of_ok {e : Except Err ℚ} {x : ℚ} (h : e = .ok x) : single e = .ok [x] := by
+  subst h; rfl
+
+/-- **every encoding has the advertised length and lies in the unit cube** — any encoder -/
+theorem range_encode_cube {env : Env} {c : Consts} {r : Range} {v : Val} {xs : List ℚ}
+    (h : r.encode env c v = .ok xs) : xs.length = r.size ∧ ∀ x ∈ xs, 0 ≤ x ∧ x ≤ 1 := by
+  cases r with
+  | cont o =>
+    simp only [Range.encode] at h
+    split at h
+    · obtain ⟨x, hx, rfl⟩ := single_ok h
+      exact ⟨rfl, by intro y hy; simp at hy; subst hy; exact cont_encode_cube hx⟩
+    · cases h
+  | int o =>
+    simp only [Range.encode] at h
+    split at h
+    · obtain ⟨x, hx, rfl⟩ := single_ok h
+      exact ⟨rfl, by intro y hy; simp at hy; subst hy; exact int_encode_cube hx⟩
+    · cases h
+  | fin o =>
+    simp only [Range.encode] at h
+    split at h
+    · obtain ⟨x, hx, rfl⟩ := single_ok h
+      exact ⟨rfl, by intro y hy; simp at hy; subst hy; exact fin_encode_cube hx⟩
+    · cases h
+  | onehot o =>
+    simp only [Range.encode, OneHot.encode] at h
+    split at h
+    · injection h with h; subst h
+      refine ⟨by simp [oneHotVec, Range.size], ?_⟩
+      intro x hx
+      simp only [oneHotVec, List.mem_map, List.mem_range] at hx
+      obtain ⟨j, _, rfl⟩ := hx
+      split <;> norm_num
+    · cases h
+  | binary o =>
+    simp only [Range.encode] at h
+    obtain ⟨x, hx, rfl⟩ := single_ok h
+    exact ⟨rfl, by intro y hy; simp at hy; subst hy; exact binary_encode_cube hx⟩
+  | ordeq o =>
+    simp only [Range.encode] at h
+    obtain ⟨x, hx, rfl⟩ := single_ok h
+    exact ⟨rfl, by intro y hy; simp at hy; subst hy; exact ordeq_encode_cube hx⟩
+  | ordnn o =>
+    simp only [Range.encode] at h
+    obtain ⟨x, hx, rfl⟩ := single_ok h
+    exact ⟨rfl, by intro y hy; simp at hy; subst hy; exact ordnn_encode_cube hx⟩
+
+/-- What the theorems about exact round trips and active sub-ranges assume about the abstract
+`exp` / `log` of the environment, per hyperparameter (all trivially true for linear kinds, see
+`scalingHyp_lin`): the scaling of the encoder inverts and is monotone on the value interval
+(`ScaleOK`); for nearest-neighbour ordinals in log scale `log` is strictly increasing; for
+log-spaced finite ranges `log ∘ exp = id` on the internal interval, `log` is monotone and `exp`
+maps the internal interval into `[lower, upper]`. -/
+def ScalingHyp (env : Env) (c : Consts) : Domain → Prop
+  | .flt d => ScaleOK env (Domain.flt d).encScale d.lower d.upper
+  | .int d => ScaleOK env (Domain.int d).encScale (intLo c d.lower) (intHi c d.upper)
+  | .nn d => LogMono env d.log
+  | .fin d => d.log = true →
+      (∀ t, d.lowInt env ≤ t → t ≤ d.upInt env → env.log.toInt (env.log.fromInt t) = t) ∧
+      d.lowInt env ≤ d.upInt env ∧
+      (∀ t, d.lowInt env ≤ t → t ≤ d.upInt env →
+        d.lower ≤ env.log.fromInt t ∧ env.log.fromInt t ≤ d.upper)
+  | .cat _ => True
+
+/-- the values covered by the round-trip theorem: the members — except that for a finite range
+with `cast_int` only linear spacing is covered (for log spacing the statement is false, see
+`roundtrip_logfin_castint_counterexample`) -/
+def RTVal (env : Env) (d : Domain) (v : Val) : Prop :=
+  d.member env v = true ∧
+  match d with
+  | .fin f => f.castInt = true → f.log = false
+  | _ => True
+
+theorem mem_of_member_cats {cats : List Val} {v : Val}
+    (h : (v.vtype == vtypeOf cats && pyIn v cats) = true) (hok : catsOk cats = true) : v ∈ cats := by
+  simp only [Bool.and_eq_true, beq_iff_eq] at h
+  obtain ⟨c', hc, hcv⟩ := pyIn_iff.mp h.2
+  have : c' = v := pyEq_eq_of_vtype hcv (by rw [vtypeOf_mem hok hc, h.1])
+  subst this; exact hc
+
+/-- **round trip of one hyperparameter value**: `from_ndarray (to_ndarray v) = v`, exactly -/
+theorem range_roundtrip {env : Env} {c : Consts} {h : HP} {r : Range} (hok : h.dom.ok = true)
+    (hmk : mkRange env c h = .ok r) (heps : 0 ≤ c.eps) (heps2 : c.eps ≤ 1 / 2)
+    (hs : ScalingHyp env c h.dom) {v : Val} (hv : RTVal env h.dom v) :
+    ∃ xs, r.encode env c v = .ok xs ∧ xs.length = r.size ∧ r.decode env c xs = .ok v := by
+  obtain ⟨hcore, _⟩ := mkRange_core hmk
+  obtain ⟨hmem, hfin⟩ := hv
+  unfold mkRangeCore at hcore
+  cases hd : h.dom with
+  | nn d =>
+    rw [hd] at hcore hok hs hmem
+    simp only at hcore
+    split at hcore
+    · rename_i o ho
+      injection hcore with hcore; subst hcore
+      have hvm := mem_of_member_cats hmem (nn_catsOk hok)
+      obtain ⟨x, e1, e2⟩ := ordnn_roundtrip ho heps hs hvm
+      exact ⟨[x], by simp only [Range.encode]; exact single_of_ok e1, rfl,
+        by simpa [Range.decode, Range.decode1] using e2⟩
+    · cases hcore
+  | cat d =>
+    rw [hd] at hcore hok hmem
+    simp only at hcore
+    simp only [Domain.ok] at hok
+    have hvm := mem_of_member_cats hmem hok
+    split at hcore
+    · split at hcore
+      · rename_i o ho
+        injection hcore with hcore; subst hcore
+        obtain ⟨x, e1, e2⟩ := ordeq_roundtrip ho hok heps heps2 hvm
+        exact ⟨[x], by simp only [Range.encode]; exact single_of_ok e1, rfl,
+          by simpa [Range.decode, Range.decode1] using e2⟩
+      · cases hcore
+    · split at hcore
+      · split at hcore
+        · rename_i o ho
+          injection hcore with hcore; subst hcore
+          obtain ⟨x, e1, e2⟩ := binary_roundtrip ho hok heps heps2 hvm
+          exact ⟨[x], by simp only [Range.encode]; exact single_of_ok e1, rfl,
+            by simpa [Range.decode, Range.decode1] using e2⟩
+        · cases hcore
+      · split at hcore
+        · rename_i o ho
+          injection hcore with hcore; subst hcore
+          obtain ⟨xs, e1, e2⟩ := onehot_roundtrip ho hok hvm
+          obtain ⟨_, hc⟩ := mkOneHot_ok ho
+          refine ⟨xs, by simpa [Range.encode] using e1, ?_, by simpa [Range.decode] using e2⟩
+          rw [(onehot_encode_cube ho e1).1]; simp [Range.size, hc]
+        · cases hcore
+  | fin d =>
+    rw [hd] at hcore hok hs hmem hfin
+    simp only at hcore hfin
+    simp only [Domain.ok] at hok
+    split at hcore
+    · cases hcore
+    · split at hcore
+      · rename_i o ho
+        injection hcore with hcore; subst hcore
+        rw [fin_encScale] at ho
+        have hvm : v ∈ d.values env := List.contains_iff_mem.mp hmem
+        obtain ⟨k, hk, rfl⟩ := fin_mem_values hvm
+        by_cases hci : d.castInt = true
+        · have hl := hfin hci
+          obtain ⟨x, e1, e2⟩ := fin_roundtrip_castint_lin hok ho hl hci heps heps2 hk
+          refine ⟨[x], ?_, rfl, by simpa [Range.decode, Range.decode1] using e2⟩
+          simp only [Range.encode, FinDom.valueAt, hci, if_true, numOf, Val.num?]
+          exact single_of_ok e1
+        · have hci' : d.castInt = false := by simpa using hci
+          by_cases hl : d.log = true
+          · obtain ⟨h1, h2, h3⟩ := hs hl
+            obtain ⟨x, e1, e2⟩ := fin_roundtrip_log hok ho hl hci' heps heps2 h1 h2 h3 hk
+            refine ⟨[x], ?_, rfl, by simpa [Range.decode, Range.decode1] using e2⟩
+            simp only [Range.encode, FinDom.valueAt, hci', Bool.false_eq_true, if_false, numOf, Val.num?]
+            exact single_of_ok e1
+          · have hl' : d.log = false := by simpa using hl
+            obtain ⟨x, e1, e2⟩ := fin_roundtrip_lin hok ho hl' hci' heps heps2 hk
+            refine ⟨[x], ?_, rfl, by simpa [Range.decode, Range.decode1] using e2⟩
+            simp only [Range.encode, FinDom.valueAt, hci', Bool.false_eq_true, if_false, numOf, Val.num?]
+            exact single_of_ok e1
+      · cases hcore
+  | flt d =>
+    rw [hd] at hcore hok hs hmem
+    simp only at hcore
+    split at hcore
+    · rename_i o ho
+      injection hcore with hcore; subst hcore
+      obtain ⟨core, hc1, hc2⟩ := mkCont_ok ho
+      obtain ⟨_, _, _, hcc, _, _⟩ := withBounds_ok hc2
+      cases v with
+      | flt x =>
+        simp only [Domain.member, decide_eq_true_eq] at hmem
+        obtain ⟨y, e1, e2⟩ := cont_roundtrip hc1 heps hs hmem.1 hmem.2
+        refine ⟨[y], ?_, rfl, ?_⟩
+        · simp only [Range.encode, numOf, Val.num?, hcc]; exact single_of_ok e1
+        · simp only [Range.decode, Range.decode1, hcc, e2]
+      | int _ => simp [Domain.member] at hmem
+      | str _ => simp [Domain.member] at hmem
+    · cases hcore
+  | int d =>
+    rw [hd] at hcore hok hs hmem
+    simp only at hcore
+    split at hcore
+    · rename_i o ho
+      injection hcore with hcore; subst hcore
+      cases v with
+      | int k =>
+        simp only [Domain.member, decide_eq_true_eq] at hmem
+        obtain ⟨y, e1, e2⟩ := int_roundtrip ho heps heps2 hs hmem.1 hmem.2
+        refine ⟨[y], ?_, rfl, ?_⟩
+        · simp only [Range.encode, numOf, Val.num?]; exact single_of_ok e1
+        · simp only [Range.decode, Range.decode1, e2]
+      | flt _ => simp [Domain.member] at hmem
+      | str _ => simp [Domain.member] at hmem
+    · cases hcore
+
+/-- **coordinates outside `[-EPS, 1+EPS]` are rejected** by every encoder except the one-hot one
+(which does not look at the magnitudes, only at the arg max) -/
+theorem range_decode_reject {env : Env} {c : Consts} {h : HP} {r : Range}
+    (hmk : mkRange env c h = .ok r) (hne : ∀ o, r ≠ .onehot o) {x : ℚ} (hx : ¬ InMargin c x) :
+    r.decode env c [x] = .error .assertion := by
+  obtain ⟨hcore, _⟩ := mkRange_core hmk
+  unfold mkRangeCore at hcore
+  cases hd : h.dom with
+  | nn d =>
+    rw [hd] at hcore
+    simp only at hcore
+    split at hcore
+    · rename_i o ho
+      injection hcore with hcore; subst hcore
+      simpa [Range.decode, Range.decode1] using (ordnn_decode_member ho x).2 hx
+    · cases hcore
+  | cat d =>
+    rw [hd] at hcore
+    simp only at hcore
+    split at hcore
+    · split at hcore
+      · rename_i o ho
+        injection hcore with hcore; subst hcore
+        simpa [Range.decode, Range.decode1] using (ordeq_decode_member ho x).2 hx
+      · cases hcore
+    · split at hcore
+      · split at hcore
+        · rename_i o ho
+          injection hcore with hcore; subst hcore
+          simpa [Range.decode, Range.decode1] using (binary_decode_member ho x).2 hx
+        · cases hcore
+      · split at hcore
+        · rename_i o ho
+          injection hcore with hcore; subst hcore
+          exact absurd rfl (hne o)
+        · cases hcore
+  | fin d =>
+    rw [hd] at hcore
+    simp only at hcore
+    split at hcore
+    · cases hcore
+    · split at hcore
+      · rename_i o ho
+        injection hcore with hcore; subst hcore
+        unfold InMargin at hx
+        have hd2 := int_decode_member (finrange_fields (d := d) (by rw [← fin_encScale]; exact ho)).2.2.2.2.2.2.2.2 x
+        simp only [Range.decode, Range.decode1, FinRange.decode, hd2.2 hx]
+      · cases hcore
+  | flt d =>
+    rw [hd] at hcore
+    simp only at hcore
+    split at hcore
+    · rename_i o ho
+      injection hcore with hcore; subst hcore
+      obtain ⟨core, hc1, hc2⟩ := mkCont_ok ho
+      obtain ⟨_, _, _, hcc, _, _⟩ := withBounds_ok hc2
+      simp only [Range.decode, Range.decode1, hcc, (cont_decode_member (c := c) hc1 x).2 hx]
+    · cases hcore
+  | int d =>
+    rw [hd] at hcore
+    simp only at hcore
+    split at hcore
+    · rename_i o ho
+      injection hcore with hcore; subst hcore
+      simp only [Range.decode, Range.decode1, (int_decode_member ho x).2 hx]
+    · cases hcore
+
+theorem inBox_single {xs : List ℚ} {a b : ℚ} (h : InBox xs [(a, b)]) : ∃ x, xs = [x] ∧ a ≤ x ∧ x ≤ b := by
+  obtain ⟨hl, hb⟩ := h
+  simp only [List.length_singleton] at hl
+  obtain ⟨x, rfl⟩ := List.length_eq_one_iff.mp hl
+  have := hb 0 (by simp) (by simp)
+  exact ⟨x, rfl, by simpa using this⟩
+
+/-- an active categorical value: member of the active domain -/
+theorem member_active_cats {env : Env} {a base : Domain} {act cats : List Val} {v : Val}
+    (hact : a.catsOf = some act) (hcats : base.catsOf = some cats) (hsub : subSpaceOk a base = true)
+    (hok : catsOk cats = true) (hv : v ∈ cats) (hin : pyIn v act = true) : a.member env v = true := by
+  have hvt : v.vtype = vtypeOf cats := vtypeOf_mem hok hv
+  unfold subSpaceOk at hsub
+  simp only [Bool.and_eq_true, beq_iff_eq] at hsub
+  have hty := hsub.1.1.1
+  have hb : base.vtype = vtypeOf cats := by
+    cases base <;> simp_all [Domain.catsOf, Domain.vtype]
+  cases a with
+  | cat d =>
+    simp only [Domain.catsOf, Option.some.injEq] at hact
+    simp only [Domain.member, Bool.and_eq_true, beq_iff_eq, hact]
+    have hty' : vtypeOf act = base.vtype := by rw [← hact]; exact hty
+    exact ⟨by rw [hvt, ← hb, ← hty'], hin⟩
+  | nn d =>
+    simp only [Domain.catsOf, Option.some.injEq] at hact
+    simp only [Domain.member, Bool.and_eq_true, beq_iff_eq, hact]
+    have hty' : vtypeOf act = base.vtype := by rw [← hact]; exact hty
+    exact ⟨by rw [hvt, ← hb, ← hty'], hin⟩
+  | flt _ => simp [Domain.catsOf] at hact
+  | int _ => simp [Domain.catsOf] at hact
+  | fin _ => simp [Domain.catsOf] at hact
+
+theorem catsOf_of_clsSub_cat {a : Domain} {d : CatDom} (h : clsSub a (.cat d) = true) :
+    ∃ act, a.catsOf = some act := by
+  cases a <;> simp_all [clsSub, Domain.catsOf]
+
+theorem catsOf_of_clsSub_nn {a : Domain} {d : NNDom} (h : clsSub a (.nn d) = true) :
+    ∃ act, a.catsOf = some act := by
+  cases a <;> simp_all [clsSub, Domain.catsOf]
+
+/-- **active sub-range of one hyperparameter**: every point of the `get_ndarray_bounds` box of the
+encoder decodes to a member of the *active* domain.  For the one-hot encoder this needs a positive
+coordinate (`hpos`); without it the statement is false (`active_onehot_counterexample`). -/
+theorem range_active {env : Env} {c : Consts} {h : HP} {r : Range} {a : Domain}
+    (hok : h.dom.ok = true) (hmk : mkRange env c h = .ok r) (ha : h.active = some a)
+    (heps : 0 < c.eps) (h499 : c.c499 < 1 / 2) (hs : ScalingHyp env c h.dom)
+    {xs : List ℚ} (hbox : InBox xs r.bounds)
+    (hpos : (∃ o, r = .onehot o) → ∃ x ∈ xs, 0 < x) :
+    ∃ v, r.decode env c xs = .ok v ∧ a.member env v = true := by
+  obtain ⟨hcore, hsub⟩ := mkRange_core hmk
+  have hsub := hsub a ha
+  have hcls : clsSub a h.dom = true := by
+    unfold subSpaceOk at hsub; simp only [Bool.and_eq_true] at hsub; exact hsub.2
+  unfold mkRangeCore at hcore
+  rw [ha] at hcore
+  cases hd : h.dom with
+  | nn d =>
+    rw [hd] at hcore hok hs hsub hcls
+    obtain ⟨act, hact⟩ := catsOf_of_clsSub_nn hcls
+    simp only [Option.bind_some, hact] at hcore
+    split at hcore
+    · rename_i o ho
+      injection hcore with hcore; subst hcore
+      obtain ⟨x, rfl, hx1, hx2⟩ := inBox_single hbox
+      obtain ⟨v, hv, hm, hin⟩ := ordnn_active_pyIn ho (le_of_lt heps) h499 hs ⟨hx1, hx2⟩
+      exact ⟨v, by simpa [Range.decode, Range.decode1] using hv,
+        member_active_cats hact rfl hsub (nn_catsOk hok) hm hin⟩
+    · cases hcore
+  | cat d =>
+    rw [hd] at hcore hok hsub hcls
+    obtain ⟨act, hact⟩ := catsOf_of_clsSub_cat hcls
+    simp only [Option.bind_some, hact] at hcore
+    simp only [Domain.ok] at hok
+    split at hcore
+    · split at hcore
+      · rename_i o ho
+        injection hcore with hcore; subst hcore
+        obtain ⟨x, rfl, hx1, hx2⟩ := inBox_single hbox
+        obtain ⟨v, hv, hm, hin⟩ := ordeq_active ho heps ⟨hx1, hx2⟩
+        exact ⟨v, by simpa [Range.decode, Range.decode1] using hv,
+          member_active_cats hact rfl hsub hok hm hin⟩
+      · cases hcore
+    · split at hcore
+      · split at hcore
+        · rename_i o ho
+          injection hcore with hcore; subst hcore
+          obtain ⟨x, rfl, hx1, hx2⟩ := inBox_single hbox
+          obtain ⟨v, hv, hm, hin⟩ := binary_active ho heps ⟨hx1, hx2⟩
+          exact ⟨v, by simpa [Range.decode, Range.decode1] using hv,
+            member_active_cats hact rfl hsub hok hm hin⟩
+        · cases hcore
+      · split at hcore
+        · rename_i o ho
+          injection hcore with hcore; subst hcore
+          obtain ⟨v, hv, hm, hin⟩ := onehot_active_partial ho hbox (hpos ⟨o, rfl⟩)
+          exact ⟨v, by simpa [Range.decode] using hv, member_active_cats hact rfl hsub hok hm hin⟩
+        · cases hcore
+  | fin d =>
+    rw [hd] at hcore
+    simp at hcore
+  | flt d =>
+    rw [hd] at hcore hok hs hcls
+    cases a with
+    | flt ad =>
+      simp only [Option.map_some] at hcore
+      split at hcore
+      · rename_i o ho
+        injection hcore with hcore; subst hcore
+        obtain ⟨x, rfl, hx1, hx2⟩ := inBox_single hbox
+        obtain ⟨core, hc1, hc2⟩ := mkCont_ok ho
+        simp only [Option.getD_some] at hc2
+        obtain ⟨v, hv, h1, h2⟩ := cont_active hc1 hc2 (le_of_lt heps) hs ⟨hx1, hx2⟩
+        refine ⟨.flt v, ?_, ?_⟩
+        · simp only [Range.decode, Range.decode1, hv]
+        · simp only [Domain.member, decide_eq_true_eq]; exact ⟨h1, h2⟩
+      · cases hcore
+    | int _ => simp [clsSub] at hcls
+    | cat _ => simp [clsSub] at hcls
+    | nn _ => simp [clsSub] at hcls
+    | fin _ => simp [clsSub] at hcls
+  | int d =>
+    rw [hd] at hcore hok hs hcls
+    cases a with
+    | int ad =>
+      simp only [Option.map_some] at hcore
+      split at hcore
+      · rename_i o ho
+        injection hcore with hcore; subst hcore
+        obtain ⟨x, rfl, hx1, hx2⟩ := inBox_single hbox
+        obtain ⟨k, hk, h1, h2⟩ := int_active ho heps hs ⟨hx1, hx2⟩
+        simp only [Option.getD_some] at h1 h2
+        refine ⟨.int k, ?_, ?_⟩
+        · simp only [Range.decode, Range.decode1, hk]
+        · simp only [Domain.member, decide_eq_true_eq]; exact ⟨h1, h2⟩
+      · cases hcore
+    | flt _ => simp [clsSub] at hcls
+    | cat _ => simp [clsSub] at hcls
+    | nn _ => simp [clsSub] at hcls
+    | fin _ => simp [clsSub] at hcls
+
+/-- **`get_ndarray_bounds` of one encoder**: as many entries as coordinates, each inside `[0,1]` -/
+theorem range_bounds_cube {env : Env} {c : Consts} {h : HP} {r : Range} (hmk : mkRange env c h = .ok r) :
+    r.bounds.length = r.size ∧ ∀ b ∈ r.bounds, 0 ≤ b.1 ∧ b.2 ≤ 1 := by
+  obtain ⟨hcore, _⟩ := mkRange_core hmk
+  have hcont : ∀ {lower upper : ℚ} {sc : ScaleKind} {aL aU : Option ℚ} {o : ContRange},
+      mkCont env c lower upper sc aL aU = .ok o → 0 ≤ o.bLo ∧ o.bHi ≤ 1 := by
+    intro lower upper sc aL aU o ho
+    obtain ⟨core, _, hc2⟩ := mkCont_ok ho
+    have := cont_bounds_cube hc2
+    exact ⟨this.1, this.2.2.2⟩
+  have hint : ∀ {lower upper : ℤ} {sc : ScaleKind} {aL aU : Option ℤ} {o : IntRange},
+      mkInt env c lower upper sc aL aU = .ok o → 0 ≤ o.cont.bLo ∧ o.cont.bHi ≤ 1 := by
+    intro lower upper sc aL aU o ho
+    obtain ⟨_, _, _, core, _, hc2⟩ := mkInt_ok ho
+    have := cont_bounds_cube hc2
+    exact ⟨this.1, this.2.2.2⟩
+  unfold mkRangeCore at hcore
+  cases hd : h.dom with
+  | nn d =>
+    rw [hd] at hcore
+    simp only at hcore
+    split at hcore
+    · rename_i o ho
+      injection hcore with hcore; subst hcore
+      obtain ⟨_, _, _, aL, aU, lo, hi, _, _, _, hmc⟩ := mkOrdNN_ok ho
+      refine ⟨rfl, ?_⟩
+      intro b hb; simp only [Range.bounds, List.mem_singleton] at hb; subst hb
+      exact hcont hmc
+    · cases hcore
+  | cat d =>
+    rw [hd] at hcore
+    simp only at hcore
+    split at hcore
+    · split at hcore
+      · rename_i o ho
+        injection hcore with hcore; subst hcore
+        obtain ⟨_, fp, _, hri⟩ := mkOrdEq_ok ho
+        refine ⟨rfl, ?_⟩
+        intro b hb; simp only [Range.bounds, List.mem_singleton] at hb; subst hb
+        exact hint hri
+      · cases hcore
+    · split at hcore
+      · split at hcore
+        · rename_i o ho
+          injection hcore with hcore; subst hcore
+          obtain ⟨_, _, av, hri, _⟩ := mkBinary_ok ho
+          refine ⟨rfl, ?_⟩
+          intro b hb; simp only [Range.bounds, List.mem_singleton] at hb; subst hb
+          exact hint hri
+        · cases hcore
+      · split at hcore
+        · rename_i o ho
+          injection hcore with hcore; subst hcore
+          obtain ⟨hne, hc⟩ := mkOneHot_ok ho
+          simp only [Range.bounds, Range.size]
+          cases hact : h.active.bind Domain.catsOf with
+          | none =>
+            rw [hact] at ho
+            unfold mkOneHot at ho
+            have hne' : d.cats.isEmpty = false := by
+              cases hcs : d.cats with
+              | nil => exact absurd hcs hne
+              | cons _ _ => rfl
+            simp only [hne', Bool.false_eq_true, if_false] at ho
+            injection ho with ho
+            subst ho
+            simp only
+            split
+            · refine ⟨by simp, ?_⟩
+              intro b hb
+              rw [List.mem_replicate] at hb
+              rw [hb.2]; norm_num
+            · rename_i hlen
+              have : d.cats.length = 1 := by
+                have : d.cats.length ≠ 0 := by
+                  intro h0; exact hne (List.eq_nil_of_length_eq_zero h0)
+                omega
+              refine ⟨by simp [this], ?_⟩
+              intro b hb; simp only [List.mem_singleton] at hb; subst hb; norm_num
+          | some act =>
+            rw [hact] at ho
+            rw [mkOneHot_active_bounds ho, hc]
+            refine ⟨by simp, ?_⟩
+            intro b hb
+            simp only [List.mem_map] at hb
+            obtain ⟨v, _, rfl⟩ := hb
+            split
+            · split <;> norm_num
+            · norm_num
+        · cases hcore
+  | fin d =>
+    rw [hd] at hcore
+    simp only at hcore
+    split at hcore
+    · cases hcore
+    · split at hcore
+      · rename_i o ho
+        injection hcore with hcore; subst hcore
+        rw [fin_encScale] at ho
+        have hri := (finrange_fields ho).2.2.2.2.2.2.2.2
+        refine ⟨rfl, ?_⟩
+        intro b hb; simp only [Range.bounds, List.mem_singleton] at hb; subst hb
+        exact hint hri
+      · cases hcore
+  | flt d =>
+    rw [hd] at hcore
+    simp only at hcore
+    split at hcore
+    · rename_i o ho
+      injection hcore with hcore; subst hcore
+      refine ⟨rfl, ?_⟩
+      intro b hb; simp only [Range.bounds, List.mem_singleton] at hb; subst hb
+      exact hcont ho
+    · cases hcore
+  | int d =>
+    rw [hd] at hcore
+    simp only at hcore
+    split at hcore
+    · rename_i o ho
+      injection hcore with hcore; subst hcore
+      refine ⟨rfl, ?_⟩
+      intro b hb; simp only [Range.bounds, List.mem_singleton] at hb; subst hb
+      exact hint ho
+    · cases hcore
+
+/-! ### slices of a whole vector -/
+
+/-- a predicate on every encoder's slice of the encoded vector -/
+def Slices (A : String × Range → List ℚ → Prop) : List (String × Range) → List ℚ → Prop
+  | [], _ => True
+  | e :: es, xs => A e (xs.take e.2.size) ∧ Slices A es (xs.drop e.2.size)
+
+theorem decodeAll_slices {env : Env} {c : Consts} {A : String × Range → List ℚ → Prop}
+    {P : String → Range → Val → Prop} (entries : List (String × Range))
+    (hP : ∀ e ∈ entries, ∀ xs : List ℚ, A e xs → ∃ v, e.2.decode env c xs = .ok v ∧ P e.1 e.2 v)
+    (xs : List ℚ) (hA : Slices A entries xs) :
+    ∃ cfg, decodeAll env c entries xs = .ok cfg ∧
+      List.Forall₂ (fun e kv => kv.1 = e.1 ∧ P e.1 e.2 kv.2) entries cfg := by
+  induction entries generalizing xs with
+  | nil => exact ⟨[], rfl, List.Forall₂.nil⟩
+  | cons e es ih =>
+    obtain ⟨k, r⟩ := e
+    obtain ⟨h1, h2⟩ := hA
+    obtain ⟨v, hv, hpv⟩ := hP (k, r) (by simp) _ h1
+    obtain ⟨cfg, hcfg, hall⟩ := ih (fun e he => hP e (List.mem_cons_of_mem _ he)) _ h2
+    refine ⟨(k, v) :: cfg, ?_, List.Forall₂.cons ⟨rfl, hpv⟩ hall⟩
+    simp only [decodeAll]
+    simp only at hv hcfg
+    rw [hv, hcfg]
+
+theorem inBox_append {xs : List ℚ} {b1 b2 : List (ℚ × ℚ)} (h : InBox xs (b1 ++ b2)) :
+    InBox (xs.take b1.length) b1 ∧ InBox (xs.drop b1.length) b2 := by
+  obtain ⟨hl, hb⟩ := h
+  simp only [List.length_append] at hl
+  constructor
+  · refine ⟨by rw [List.length_take]; omega, ?_⟩
+    intro i hi hbi
+    have := hb i (by omega) (by simp; omega)
+    rw [List.getElem_append_left hbi] at this
+    simpa using this
+  · refine ⟨by rw [List.length_drop]; omega, ?_⟩
+    intro i hi hbi
+    have := hb (b1.length + i) (by rw [List.length_drop] at hi; omega) (by simp; omega)
+    rw [List.getElem_append_right (by omega)] at this
+    simpa using this
+
+theorem inBox_margin {c : Consts} (heps : 0 ≤ c.eps) {xs : List ℚ} {bs : List (ℚ × ℚ)}
+    (hb : ∀ b ∈ bs, 0 ≤ b.1 ∧ b.2 ≤ 1) (h : InBox xs bs) : ∀ x ∈ xs, InMargin c x := by
+  intro x hx
+  obtain ⟨i, hi, rfl⟩ := List.getElem_of_mem hx
+  obtain ⟨hl, hin⟩ := h
+  have hib : i < bs.length := by omega
+  have := hin i hi hib
+  have hbb := hb _ (List.getElem_mem hib)
+  unfold InMargin
+  constructor <;> linarith [this.1, this.2, hbb.1, hbb.2]
+
+/-- the bounds box of a whole space cut into the boxes of the encoders -/
+theorem slices_of_inBox {env : Env} {c : Consts} {hps : List HP} (entries : List (String × Range))
+    (hmk : ∀ e ∈ entries, ∃ hp ∈ hps, hp.name = e.1 ∧ mkRange env c hp = .ok e.2)
+    {xs : List ℚ} (h : InBox xs (entries.map (fun e => e.2.bounds)).flatten) :
+    Slices (fun e ys => InBox ys e.2.bounds) entries xs := by
+  induction entries generalizing xs with
+  | nil => trivial
+  | cons e es ih =>
+    obtain ⟨hp, _, _, hr⟩ := hmk e (by simp)
+    have hlen := (range_bounds_cube hr).1
+    simp only [List.map_cons, List.flatten_cons] at h
+    obtain ⟨h1, h2⟩ := inBox_append h
+    rw [hlen] at h1 h2
+    exact ⟨h1, ih (fun e he => hmk e (List.mem_cons_of_mem _ he)) h2⟩
+
+theorem Slices.and {A B : String × Range → List ℚ → Prop} {entries : List (String × Range)} {xs : List ℚ}
+    (ha : Slices A entries xs) (hb : Slices B entries xs) : Slices (fun e ys => A e ys ∧ B e ys) entries xs := by
+  induction entries generalizing xs with
+  | nil => trivial
+  | cons e es ih => exact ⟨⟨ha.1, hb.1⟩, ih ha.2 hb.2⟩
+
 end SyneTune.Dom
